@@ -495,6 +495,12 @@ func appendAltText(dst []byte, source []byte, parent *Inline) []byte {
 				hasAttr = true
 			}
 			dst = escapeHTML(dst, spanSlice(source, curr.Span()))
+		case CharacterReferenceKind:
+			if !hasAttr {
+				dst = append(dst, ` alt="`...)
+				hasAttr = true
+			}
+			dst = append(dst, spanSlice(source, curr.Span())...)
 		case IndentKind, SoftLineBreakKind, HardLineBreakKind:
 			if !hasAttr {
 				dst = append(dst, ` alt="`...)
